@@ -414,10 +414,9 @@ theorem zipRoom_eq (a : ArraySized) (m : Mem) (h : a.Inv) :
   · rw [if_pos hc, if_pos (by omega)]
   · rw [if_neg hc, if_neg (by omega)]
 
-/-- `zip_iter_add`: either both elements are inserted directly after the pair yielded last, or a
-growth was refused: then both contents are unchanged and the ledger is balanced — but the cursor
-has advanced all the same (`index = iter->index++` precedes the growth checks), which is the
-library defect recorded in `corpus/array_sized/defect_zip_iter_add_refused.ops` -/
+/-- `zip_iter_add`: either both elements are inserted directly after the pair yielded last and
+the cursor steps over them, or a growth was refused: then the status is `CC_ERR_ALLOC`, both
+contents are unchanged, the ledger is balanced and the cursor has not moved (repair A8) -/
 theorem zipAdd_spec (it : Iter) (a1 a2 : ArraySized) (c : Spec.SSeq.ZipCursor Elem) (e1 e2 : Buf Nat) (m : Mem)
     (i1 : a1.Inv) (i2 : a2.Inv) (g1 : a1.GrowOk) (g2 : a2.GrowOk)
     (he1 : e1.length = a1.dataLen) (he2 : e2.length = a2.dataLen) (hrel : ZipRel it a1 a2 c) :
@@ -429,7 +428,8 @@ theorem zipAdd_spec (it : Iter) (a1 a2 : ArraySized) (c : Spec.SSeq.ZipCursor El
       (zipAdd it a1 a2 e1 e2 m).2.2.1.abs = a1.abs ∧ (zipAdd it a1 a2 e1 e2 m).2.2.2.1.abs = a2.abs ∧
       (zipAdd it a1 a2 e1 e2 m).2.2.1.Inv ∧ (zipAdd it a1 a2 e1 e2 m).2.2.2.1.Inv ∧
       MemSame m (zipAdd it a1 a2 e1 e2 m).2.2.2.2 ∧
-      (zipAdd it a1 a2 e1 e2 m).2.1 = { it with index := it.index + 1 }) := by
+      (zipAdd it a1 a2 e1 e2 m).2.1 = it ∧
+      ZipRel (zipAdd it a1 a2 e1 e2 m).2.1 (zipAdd it a1 a2 e1 e2 m).2.2.1 (zipAdd it a1 a2 e1 e2 m).2.2.2.1 c) := by
   have hsz := zrel_size hrel
   obtain ⟨h1, h2, h3, h4, h5⟩ := hrel
   unfold zipAdd
@@ -464,11 +464,12 @@ theorem zipAdd_spec (it : Iter) (a1 a2 : ArraySized) (c : Spec.SSeq.ZipCursor El
     · right
       have hne : (a2.ensureRoom m1).1 ≠ .ok := by rcases q1 with q1 | q1 <;> rw [q1] <;> simp
       rw [if_pos hne]
-      exact ⟨rfl, p3, by rw [q2], p2, by rw [q2]; exact i2, MemSame.trans p9 q3, rfl⟩
+      exact ⟨rfl, p3, by rw [q2], p2, by rw [q2]; exact i2, MemSame.trans p9 q3, rfl,
+        ⟨p3.trans h1, by rw [q2]; exact h2, h3, h4, h5⟩⟩
   · right
     have hne : (a1.ensureRoom m).1 ≠ .ok := by rcases p1 with p1 | p1 <;> rw [p1] <;> simp
     rw [if_pos hne]
-    exact ⟨rfl, by rw [p2], rfl, by rw [p2]; exact i1, i2, p3, rfl⟩
+    exact ⟨rfl, by rw [p2], rfl, by rw [p2]; exact i1, i2, p3, rfl, ⟨by rw [p2]; exact h1, h2, h3, h4, h5⟩⟩
 
 /-! ### CC_ARRAY_SIZED_FOREACH -/
 theorem foreachGo_spec (a : ArraySized) (m : Mem) (h : a.Inv) :
